@@ -14,7 +14,7 @@ pub use self::unwind::DwarfUnwinder;
 use crate::debugger::ExplorationContext;
 use crate::debugger::address::{GlobalAddress, RelocatedAddress};
 use crate::debugger::context::gcx;
-use crate::debugger::debugee::dwarf::eval::AddressKind;
+use crate::debugger::debugee::dwarf::eval::{AddressKind, ExternalRequirementsResolver};
 use crate::debugger::debugee::dwarf::symbol::SymbolTab;
 use crate::debugger::debugee::dwarf::unit::die::{DerefContext, Die};
 use crate::debugger::debugee::dwarf::unit::die_ref::{FatDieRef, Function, Variable};
@@ -198,7 +198,14 @@ impl DebugInformation {
                     .ok_or(UnitNotFound(ecx.location().global_pc))?;
                 let evaluator =
                     resolve_unit_call!(&self.inner, unit, evaluator, debugee, self.dwarf());
-                let expr_result = evaluator.evaluate(ecx, expr.get(&self.eh_frame)?)?;
+                // the expression must see the registers of this very frame, which the caller
+                // has already restored: asking the evaluator to restore them would unwind
+                // through this frame again (endless recursion for any frame above the first)
+                let expr_result = evaluator.evaluate_with_resolver(
+                    ExternalRequirementsResolver::new().with_frame_registers(registers.clone()),
+                    ecx,
+                    expr.get(&self.eh_frame)?,
+                )?;
 
                 Ok((expr_result.into_scalar::<usize>(AddressKind::Value)?).into())
             }
